@@ -71,6 +71,18 @@ def run(ctx: Ctx) -> None:
     eff = effects(ctx)
     client = ctx.repo.cls("APIClient")
     cb = "client_callbacks"
+    # a library callback that raises on some message takes the whole connection down (every operation in flight, on
+    # every address, fails with it): the Bluetooth callbacks evaluate nothing that can raise by itself
+    from ..totality import risky
+
+    n_cb = 0
+    for f_ in ctx.repo.funcs_in(cb):
+        if "bluetooth" not in f_.name or f_.parent is not None:
+            continue
+        n_cb += 1
+        rk = risky(ctx, res, f_, f_.node.body)
+        ctx.ob("C16.R1", f_, f"{f_.name} cannot raise by itself on any message", not rk, f"{rk[:3]}: a message that makes it raise (an unlisted error code, say) tears down the connection and with it the operations of all other peripherals")
+    ctx.count("C16.R1.callbacks", n_cb, 4, "Bluetooth message callbacks")
 
     # ------------------------------------------------------------------ R1
     def eq_atom(t: ast.AST, field: str, bound: str) -> bool | None:
